@@ -80,6 +80,16 @@ def run_relabel(rs, ctx, j):
         rs, cfg, sh, int(rs.integers(3, 10)),
         ["partial_fit", "add_arm", "remove_arm", "warm_start", "predict", "predict_expectations", "cold_arms", "fit"])
     ops += gen.gen_ops(rs, cfg, sh, 2, ["predict_expectations", "predict"])
+    if p == "none" and l != "rnd" and len(cfg["arms"]) >= 3 and rs.integers(3) == 0:
+        # a warm start whose nearest trained arm is not unique: the tie must be broken by arm-list order, whatever the labels
+        cold = cfg["arms"][-1]
+        trained = cfg["arms"][:-1]
+        ops[0]["d"] = [a if a != cold else gen.pick(rs, trained) for a in ops[0]["d"]]
+        ops[0]["d"][:len(trained)] = list(trained)
+        tie = {"op": "warm_start", "features": [[a, [1.0, 2.0]] for a in trained] + [[cold, [2.0, 1.0]]], "q": 1.0}
+        ops = [ops[0], tie, {"op": "cold_arms"}] + gen.gen_ops(rs, cfg, gen.Shadow(cfg, nf), 0, ["predict"]) + \
+            [o for o in ops[1:] if o["op"] in ("predict", "predict_expectations", "partial_fit", "cold_arms")]
+        ops = [o for o in ops if not (o["op"] == "partial_fit" and any(a not in cfg["arms"] for a in o["d"]))]
     ops2 = [relabel_op(o, mp) for o in ops]
     A, B = gen.build(cfg), gen.build(cfg2)
     oa, ob = gen.run_ops(A, ops), gen.run_ops(B, ops2)
